@@ -153,7 +153,7 @@ def task_wide(t):
     rot = env.SEED % nvars
     decl = allnames[rot:] + allnames[:rot]          # declaration order
     bdd = S.new_bdd({v: i for i, v in enumerate(decl)})
-    subsets = list(itertools.combinations(range(nvars), k))
+    subsets = sweep.wide_subsets(nvars, k)
     mine = sweep.shard(subsets, ns)[si]
     for lv in mine:
         names = tuple(decl[i] for i in lv)
@@ -161,7 +161,7 @@ def task_wide(t):
             next(i for i in range(nvars) if i not in lv)]
         U = Universe(names + (extra,))
         b = sweep.Builder(bdd, U)
-        fs = U.all_functions(names)
+        fs = sweep.wide_functions(U, names)
         for fu in fs:
             if focus is not None and sweep.norm([lv, fu]) != sweep.norm(focus):
                 continue
@@ -225,6 +225,7 @@ def plan(tier):
         ts.append(('wide', 12, 2, si, 4, None))
     for si in range(16):
         ts.append(('wide', 12 if tier == 'quick' else 14, 3, si, 16, None))
+        ts.append(('wide', sweep.XWIDE, 5, si, 16, None))
     if tier == 'quick':
         for oi in range(6):
             ts.append(('t', 3, oi, 'bdd', 0, 1, None))
